@@ -388,6 +388,43 @@ def r6_priority(ctx, prog):
                     idx_used = any(pop.stmts[x]['k'] == 'DeclRefExpr' and pop.stmts[x].get('d') == init['decls'][0]['d'] for x in pop.walk(lp['body']))
                     ok = ok or (zero and up and idx_used)
             ctx.ob('C05.R6', '%s|prio-scan' % pop.name, ok, 'priority levels scanned with an index ascending from 0 (level 0 = highest priority)', where=pop.loc(pop.body))
+            # every walk over the priority levels (take, wake-up predicate, cancel, cleanup) covers exactly levels 0..size-1: folded trip counts
+            nwalk = 0
+            for g in scope_funcs(prog, cls):
+                for lp in [st for st in g.stmts if st and st['k'] == 'ForStmt' and st.get('cond') is not None]:
+                    is_sz = lambda sx, g=g: sx['k'] in q.CALL_KINDS and sx.get('fn') == 'size' and sx.get('obj') is not None and (g.field_of(sx['obj']) or '').endswith('undo_tasks_token')
+                    if not any(is_sz(g.stmts[x]) for x in g.walk(lp['cond'])):
+                        continue
+                    nwalk += 1
+                    tr = q.loop_trips(g, lp, is_sz)
+                    okw = tr is not None and all(tr[N] == (N, 0) for N in tr)
+                    wit = next(((N, tr[N]) for N in tr if tr[N] != (N, 0)), None) if tr else None
+                    ctx.ob('C05.R6', '%s|levels-walk@%s' % (locks.site_name(prog, g), g.loc(lp['i']).split(':')[-1]), okw, 'the walk visits levels 0..size-1, each once' if okw else
+                           'the walk over the priority levels does not visit exactly 0..size-1%s: %s' % ((' (for %d levels it runs %d time(s) from index %d)' % (wit[0], wit[1][0], wit[1][1])) if wit else '',
+                           'tasks of the highest priority are never seen' if wit and wit[1][1] > 0 else 'it indexes one level past the table (at() throws in the worker)'), where=g.loc(lp['i']))
+            if nwalk < 3:
+                raise AnalysisBroken('expected >= 3 walks over undo_tasks_token, found %d' % nwalk)
+            # walks bounded by the level count as a constant (snapshot) and the start-up loop that creates the resident workers
+            import re as _re
+            _m = _re.search(r', (\d+)>$', prog.field(cls + '::Data', 'undo_tasks_token')['ct'])
+            n_levels = int(_m.group(1)) if _m else None
+            for g in scope_funcs(prog, cls):
+                for lp in [st for st in g.stmts if st and st['k'] == 'ForStmt' and st.get('cond') is not None]:
+                    body_idx = any(g.stmts[x]['k'] in ('CXXOperatorCallExpr', 'ArraySubscriptExpr', 'CXXMemberCallExpr') and 'undo_tasks_token' in g.path(x) for x in g.walk(lp['body'])) if lp.get('body') is not None else False
+                    consts = [g.stmts[x] for x in g.walk(lp['cond']) if g.stmts[x].get('cv') is not None and g.stmts[x]['cv'] == n_levels and g.stmts[x]['k'] != 'BinaryOperator']
+                    if body_idx and consts and n_levels:
+                        cid = consts[0]['i']
+                        tr = q.loop_trips(g, lp, lambda sx, cid=cid: sx['i'] == cid, counts=[n_levels])      # the bound is a constant: one fold
+                        okw = tr is not None and tr.get(n_levels) == (n_levels, 0)
+                        ctx.ob('C05.R6', '%s|levels-walk-const@%s' % (locks.site_name(prog, g), g.loc(lp['i']).split(':')[-1]), okw,
+                               'the walk visits levels 0..%d, each once' % (n_levels - 1) if okw else 'the walk bounded by the level count does not visit exactly 0..%d: it indexes past the level table '
+                               'or skips the highest priority' % (n_levels - 1), where=g.loc(lp['i']))
+            ini = prog.fn1(cls + '::initialize')
+            for lp in [st for st in ini.stmts if st and st['k'] == 'ForStmt' and st.get('cond') is not None and 'min_thread_num' in {ini.stmts[x].get('n') for x in ini.walk(st['cond'])}]:
+                tr = q.loop_trips(ini, lp, 'min_thread_num')
+                okw = tr is not None and all(tr[N] == (N, 0) for N in tr)
+                ctx.ob('C05.R6', '%s|resident-workers' % ini.name, okw, 'initialize() creates exactly min_thread_num resident workers' if okw else
+                       'initialize() does not create exactly min_thread_num workers: with min == max the pool starts above its bound (or below its resident number)', where=ini.loc(lp['i']))
             # execute: level = prio + MAX with prio clamped
             f = [f for f in ex if any(st and st['k'] in q.CALL_KINDS and st.get('fn') == 'push_back' for st in f.stmts)][0]
             prio = next((p for p in f.params if p['n'] == 'prio'), None)
